@@ -516,7 +516,7 @@ class C17(core.Check):
     def shrink_candidates(self, case):
         """grammar cases are not shrunk: a sub-list of a canonical item list is in general not canonical, so a
         shrunk case would no longer be a witness against the property; byte-string cases lose bytes."""
-        if case['k'] in ('items', 'items_any', 'itext'):
+        if case['k'] in ('items', 'items_any', 'itext') or 'lits' in case:
             return
         v = case['b']
         n = len(v)
